@@ -22,7 +22,7 @@ def sh(cmd, **kw):
 def main():
     ap = argparse.ArgumentParser()
     ap.add_argument("patterns", nargs="*", default=["*"])
-    ap.add_argument("--budget", type=float, default=20)
+    ap.add_argument("--budget", type=float, default=30)
     ap.add_argument("--dir", default=os.path.join(VERIF, "mutants"))
     a = ap.parse_args()
     a.dir = os.path.abspath(a.dir)
